@@ -48,7 +48,8 @@ CONSTANTS MaxNodes,    \* bound on the number of nodes of a graph
           IntVals,     \* values of "int" leaves
           GlobVals,    \* values of "glob" leaves (0: the class used by reduce nodes, 1: a function)
           RVariants,   \* variants of "reduce" nodes enumerated
-          ReduceFixed, \* FALSE: save_reduce as implemented; TRUE: as it should be (proposed patch)
+          ReduceFixed, \* TRUE: save_reduce as implemented (since fix a37a275); FALSE: the old defective protocol,
+                       \* kept only as a witness run that must violate RoundTripPlain (non-vacuity)
           Emit         \* TRUE: print one record per finished graph (for the replay harness)
 
 VARIABLES phase,   \* "init" "build" "save" "load" "judge" "done" "invalid"
@@ -90,11 +91,13 @@ Range(s) == {s[j] : j \in 1..Len(s)}
      2: listitems  (no state)    list subclass
      3: state + listitems
      4: dictitems  (no state)    dict subclass; items are key nodes followed by value nodes
-   ch = <<func, args>> \o state? \o items ; func is a "glob" node, args a "tuple" node *)
-RHasState(v) == v \in {1, 3}
+     5: state + state_setter     the setter is a global function ("glob" node with value 2)
+   ch = <<func, args>> \o state? \o setter? \o items ; func is a "glob" node, args a "tuple" node *)
+RHasState(v) == v \in {1, 3, 5}
 RHasList(v) == v \in {2, 3}
 RHasDict(v) == v = 4
-RFirstItem(v) == IF RHasState(v) THEN 4 ELSE 3
+RHasSetter(v) == v = 5        \* 5: state + state_setter (a global function, "glob" value 2); ch = <<func, args, state, setter>>
+RFirstItem(v) == 3 + (IF RHasState(v) THEN 1 ELSE 0) + (IF RHasSetter(v) THEN 1 ELSE 0)
 
 -----------------------------------------------------------------------------
 (* ---------- enumeration of graphs (DFS construction) ---------- *)
@@ -115,6 +118,7 @@ ChildOK(nd, k, v) == CASE nd.k = "range" -> k = "int" /\ (Len(nd.ch) = 2 => v # 
                        [] nd.k = "reduce" -> CASE Len(nd.ch) = 0 -> k = "glob" /\ v = 0
                                                [] Len(nd.ch) = 1 -> k = "tuple"
                                                [] Len(nd.ch) = 2 /\ RHasState(nd.v) -> k \in {"sdict"}
+                                               [] Len(nd.ch) = 3 /\ RHasSetter(nd.v) -> k = "glob" /\ v = 2
                                                [] OTHER -> TRUE
                        [] OTHER -> TRUE
 Vals(k) == CASE k = "int" -> IntVals [] k = "reduce" -> RVariants [] k = "glob" -> GlobVals [] OTHER -> {0}
@@ -194,9 +198,9 @@ Valid(gg) ==
                  /\ gg[gg[n].ch[2]].ch = <<>>
                  /\ RHasState(gg[n].v) => /\ gg[gg[n].ch[3]].ch # <<>>
                                           /\ Cardinality({e \in EdgeOcc(gg) : e[3] = gg[n].ch[3]}) = 1
-                 /\ ReduceFixed => ~RHasDict(gg[n].v)
+                 /\ ~ReduceFixed => ~RHasSetter(gg[n].v)
 
-Frame0 == [f |-> 0, items |-> <<<<"/", 1>>>>, i |-> 1, pend |-> <<>>, hp |-> FALSE, pn |-> "", p |-> <<>>]
+Frame0 == [f |-> 0, items |-> <<<<"/", 1, <<>>>>>>, i |-> 1, pend |-> <<>>, hp |-> FALSE, pn |-> "", p |-> <<>>]
 
 BuildDone ==
     /\ phase = "build" /\ stack = <<>> /\ Valid(g)
@@ -226,16 +230,20 @@ Discard ==
 
 TypeRepr(k) == CASE k = "sdict" -> "simple_dict" [] k = "gdict" -> "dict" [] k = "inst" -> "instance"
                  [] OTHER -> k
-IdxItems(s, off) == [j \in 1..Len(s) |-> <<ToString(j - 1 + off), s[j]>>]
+\* an item to save: <<name, node, aux>>; aux = <<>> for a node of the graph, or <<k, v>> for a fresh
+\* (key, value) tuple that exists only during the save (the elements of list(dictitems))
+IdxItems(s, off) == [j \in 1..Len(s) |-> <<ToString(j - 1 + off), s[j], <<>>>>]
+PairItems(ks, vs) == [j \in 1..Len(ks) |-> <<ToString(j - 1), 0, <<ks[j], vs[j]>>>>]
 \* the (name, child) pairs a container writes, in the order of the save_* method
 Items(nd) == CASE nd.k \in SeqKinds -> IdxItems(nd.ch, 0)
-               [] nd.k \in KeyedKinds -> [j \in 1..Len(nd.ch) |-> <<KeyName[nd.ks[j]], nd.ch[j]>>]
-               [] nd.k = "range" -> <<<<"start", nd.ch[1]>>, <<"stop", nd.ch[2]>>, <<"step", nd.ch[3]>>>>
+               [] nd.k \in KeyedKinds -> [j \in 1..Len(nd.ch) |-> <<KeyName[nd.ks[j]], nd.ch[j], <<>>>>]
+               [] nd.k = "range" -> <<<<"start", nd.ch[1], <<>>>>, <<"stop", nd.ch[2], <<>>>>, <<"step", nd.ch[3], <<>>>>>>
                [] OTHER -> <<>>
 Log(op, p) == /\ last' = [op |-> op, p |-> p]
               /\ hist' = Append(hist, [op |-> op, p |-> p])
 SFr == Top(sst)
-SBusy == phase = "save" /\ SFr.i <= Len(SFr.items)
+SAny == phase = "save" /\ SFr.i <= Len(SFr.items)
+SBusy == SAny /\ SFr.items[SFr.i][3] = <<>>        \* the next thing to save is an object of the graph
 SName == SFr.items[SFr.i][1]
 SNode == SFr.items[SFr.i][2]
 SPath == IF SFr.f = 0 THEN <<>> ELSE Append(SFr.p, SName)
@@ -301,26 +309,45 @@ SaveValues ==
 \* None is saved as a dataset; it is the same object as a "none" node of the graph (memo by id).
 NoneNode == IF \E j \in 1..Len(g) : g[j].k = "none" THEN CHOOSE j \in 1..Len(g) : g[j].k = "none" ELSE 0
 
-(* save_reduce(func, args, state, listitems, dictitems, obj, path): group memorized first; then
-   func, args, state are saved; as implemented, `state` is saved again under the names "listitems" /
-   "dictitems" (so the items never reach the file).  With ReduceFixed the items are saved as a list
-   (of items / of (key, value) tuples) -- the auxiliary list / tuples are h5 objects without a node. *)
+\* an element of list(dictitems): a fresh tuple (key, value) -- saved like any tuple, memorized under an id
+\* nothing else in the graph has
+SaveAuxTuple ==
+    /\ SAny /\ SFr.items[SFr.i][3] # <<>>
+    /\ LET f == Len(fo) + 1  nm == SFr.items[SFr.i][1]  path == Append(SFr.p, nm) IN
+       /\ fo' = Append(fo, [t |-> "tuple", n |-> 0, ln |-> 2])
+       /\ lk' = lk \cup {<<SFr.f, nm, f>>}
+       /\ sst' = Append(SetTop(sst, [SFr EXCEPT !.i = @ + 1]), GFrame(f, IdxItems(SFr.items[SFr.i][3], 0), path))
+       /\ Log("group", path)
+    /\ UNCHANGED <<phase, g, stack, ms, h, ml, lst, hroot, err, tback, ok>>
+
+(* save_reduce(func, args, state, listitems, dictitems, state_setter, obj, path): group memorized first; then
+   func, args, state are saved, then list(listitems) under "listitems", list(dictitems) -- a list of fresh
+   (key, value) tuples -- under "dictitems", the state_setter (a global function) under "state_setter".
+   The auxiliary list / tuples are h5 objects without a node (n = 0).
+   ~ReduceFixed: the protocol before fix a37a275, which saved `state` again under those names. *)
 SaveReduce ==
     /\ SBusy /\ ms[SNode] = 0 /\ KindOf(SNode) = "reduce"
     /\ LET nd == g[SNode]  f == Len(fo) + 1
-           base == <<<<"func", nd.ch[1]>>, <<"args", nd.ch[2]>>>> \o
-                   (IF RHasState(nd.v) THEN <<<<"state", nd.ch[3]>>>> ELSE <<>>)
+           base == <<<<"func", nd.ch[1], <<>>>>, <<"args", nd.ch[2], <<>>>>>> \o
+                   (IF RHasState(nd.v) THEN <<<<"state", nd.ch[3], <<>>>>>> ELSE <<>>)
+           setter == IF RHasSetter(nd.v) THEN <<<<"state_setter", nd.ch[4], <<>>>>>> ELSE <<>>
+           its == RItems(nd)
+           m == Len(its) \div 2
            \* as implemented: save(state, subpath + 'listitems'); state is None when absent
-           buggy == IF RHasList(nd.v) THEN <<<<"listitems", IF RHasState(nd.v) THEN nd.ch[3] ELSE NoneNode>>>>
-                    ELSE IF RHasDict(nd.v) THEN <<<<"dictitems", NoneNode>>>> ELSE <<>>
+           buggy == IF RHasList(nd.v) THEN <<<<"listitems", IF RHasState(nd.v) THEN nd.ch[3] ELSE NoneNode, <<>>>>>>
+                    ELSE IF RHasDict(nd.v) THEN <<<<"dictitems", NoneNode, <<>>>>>> ELSE <<>>
        IN
        /\ fo' = Append(fo, [t |-> "reduce", n |-> SNode, ln |-> 0])
        /\ ms' = [ms EXCEPT ![SNode] = f]
        /\ lk' = lk \cup {<<SFr.f, SName, f>>}
        /\ sst' = Append(SAdvance,
                         IF ReduceFixed
-                        THEN [f |-> f, items |-> base, i |-> 1, pend |-> IdxItems(RItems(nd), 0),
-                              hp |-> RHasList(nd.v), pn |-> "listitems", p |-> SPath]
+                        THEN [f |-> f, items |-> base \o setter, i |-> 1,
+                              pend |-> IF RHasDict(nd.v) THEN PairItems(SubSeq(its, 1, m), SubSeq(its, m + 1, 2 * m))
+                                       ELSE IdxItems(its, 0),
+                              hp |-> RHasList(nd.v) \/ RHasDict(nd.v),
+                              pn |-> IF RHasDict(nd.v) THEN "dictitems" ELSE "listitems",
+                              p |-> SPath]
                         ELSE GFrame(f, base \o buggy, SPath))
     /\ Log("group", SPath)
     /\ UNCHANGED <<phase, g, stack, h, ml, lst, hroot, err, tback, ok>>
@@ -532,6 +559,7 @@ LoadReduceCreate ==
     /\ LET x == Len(h) + 1
            present == Names(LFr.f)
            more == (IF "state" \in present THEN <<"state">> ELSE <<>>) \o
+                   (IF "state_setter" \in present THEN <<"state_setter">> ELSE <<>>) \o
                    (IF "listitems" \in present THEN <<"listitems">> ELSE <<>>) \o
                    (IF "dictitems" \in present THEN <<"dictitems">> ELSE <<>>)
        IN
@@ -541,30 +569,43 @@ LoadReduceCreate ==
     /\ Log("create", LFr.p)
     /\ UNCHANGED <<phase, g, stack, fo, lk, ms, sst, hroot, err, tback, ok>>
 
-\* everything loaded: apply state and items to the object.  acc = <<func, args, state?, listitems?/dictitems?>>
-\* The items container is whatever object was stored under that name: iterating a dict yields its keys,
-\* iterating None raises TypeError, iterating a list yields its elements.
+\* everything loaded: apply state and items to the object.  acc = <<func, args, state?, setter?, items?>>
+\*   state: obj.__dict__.update(state), or obj = state_setter(obj, state) -- the *return value* of the setter
+\*          replaces obj (a setter following the pickle protocol returns None: known finding
+\*          C17-reduce-state-setter); the memo entry keeps the object (setdefault does not overwrite)
+\*   listitems: for item in load(listitems): obj.append(item)
+\*   dictitems: for key, val in load(dictitems): obj[key] = val      (raises for an unhashable key)
+\* Under the old protocol the items container is whatever was stored under that name: iterating a dict
+\* yields its keys, None is not iterable, a key string cannot be unpacked into (key, val).
 LoadReduceFinish ==
     /\ LDone /\ LFr.kind = "reduce" /\ LFr.st = 2
     /\ LET present == Names(LFr.f)
            hs == "state" \in present
+           hset == "state_setter" \in present
            hl == "listitems" \in present
            hd == "dictitems" \in present
            itn == IF hl \/ hd THEN LFr.acc[Len(LFr.acc)] ELSE 0          \* the loaded items object
-           \* what iteration over the items object yields: the elements of a list; the keys of a dict
-           \* (python strings, new "keystr" nodes); None is not iterable
            isd == itn # 0 /\ h[itn].k = "sdict"
            h1 == IF isd THEN h \o [j \in 1..Len(h[itn].ks) |-> Node("keystr", h[itn].ks[j])] ELSE h
            iter == IF itn = 0 THEN <<>>
                    ELSE IF h[itn].k = "list" THEN h[itn].ch
                    ELSE IF isd THEN [j \in 1..Len(h[itn].ks) |-> Len(h) + j]
                    ELSE <<>>
-           \* `for key, val in dictitems`: a one-character string cannot be unpacked into two names
-           bad == itn # 0 /\ (h[itn].k \notin {"list", "sdict"} \/ hd)
+           pairs == itn # 0 /\ h[itn].k = "list" /\ \A j \in 1..Len(iter) : h[iter[j]].k = "tuple" /\ Len(h[iter[j]].ch) = 2
+           bad == itn # 0 /\ (h[itn].k \notin {"list", "sdict"} \/ (hd /\ ~pairs))
+           keys == IF hd /\ pairs THEN [j \in 1..Len(iter) |-> h[iter[j]].ch[1]] ELSE <<>>
+           vals == IF hd /\ pairs THEN [j \in 1..Len(iter) |-> h[iter[j]].ch[2]] ELSE <<>>
+           unhash == \E j \in 1..Len(keys) : ~HashableH(h, keys[j])
+           items == IF hd THEN keys \o vals ELSE iter
            st == IF hs THEN <<LFr.acc[3]>> ELSE <<>>
+           se == IF hset THEN <<LFr.acc[4]>> ELSE <<>>
+           h2 == [h1 EXCEPT ![LFr.o].ch = <<LFr.acc[1], LFr.acc[2]>> \o st \o se \o items]
+           ex == Existing(h2, "none", 0)
+           x == IF hset THEN (IF ex # 0 THEN ex ELSE Len(h2) + 1) ELSE LFr.o
+           h3 == IF hset /\ ex = 0 THEN Append(h2, Node("none", 0)) ELSE h2
        IN
-       IF bad THEN /\ Finish(TRUE) /\ UNCHANGED <<h, lst, hroot>>
-       ELSE ReturnTo([h1 EXCEPT ![LFr.o].ch = <<LFr.acc[1], LFr.acc[2]>> \o st \o iter], LFr.o)
+       IF bad \/ unhash THEN /\ Finish(TRUE) /\ UNCHANGED <<h, lst, hroot>>
+       ELSE ReturnTo(h3, x)
     /\ Log("ret", LFr.p)
     /\ UNCHANGED <<g, stack, fo, lk, ms, sst, ml, tback, ok>>
 
@@ -614,7 +655,7 @@ DoAddNew == \E k \in Kinds : \E v \in Vals(k) : \E key \in 0..NKeys : AddNew(k, 
 DoAddRef == \E j \in 1..MaxNodes : \E key \in 0..NKeys : AddRef(j, key)
 
 Next == \/ DoNewRoot \/ DoAddNew \/ DoAddRef \/ Close \/ BuildDone \/ Discard \/ Abandon
-        \/ SaveLink \/ SaveData \/ SaveGroup \/ SaveGDict \/ SaveValues \/ SaveReduce \/ SaveReturn \/ SaveDone
+        \/ SaveLink \/ SaveData \/ SaveGroup \/ SaveGDict \/ SaveValues \/ SaveAuxTuple \/ SaveReduce \/ SaveReturn \/ SaveDone
         \/ LoadHit \/ LoadData \/ LoadEnter \/ LoadEnterRange \/ LoadEnterGDict \/ LoadEnterReduce
         \/ LoadReturn \/ LoadReturnTuple \/ LoadReturnRange \/ LoadKeysDone \/ LoadValuesDone
         \/ LoadReduceCreate \/ LoadReduceFinish \/ LoadDone
@@ -626,9 +667,9 @@ BuildOnly == phase \in {"init", "build", "invalid"} \/ (phase = "save" /\ hist =
 (* ---------- properties ---------- *)
 
 Edges(gg) == {<<a, b>> \in (1..Len(gg)) \X (1..Len(gg)) : b \in Range(gg[a].ch)}
-\* save_reduce as implemented loses listitems / dictitems (known finding C17-reduce-items); the patched
-\* protocol (ReduceFixed) does not
-DefectFree(gg) == ReduceFixed \/ \A n \in 1..Len(gg) : gg[n].k = "reduce" => gg[n].v = 1
+\* the reduce variants that do not round-trip: with a state_setter the loader returns the setter's return
+\* value (known finding C17-reduce-state-setter); the old save_reduce (~ReduceFixed) lost listitems / dictitems
+DefectFree(gg) == \A n \in 1..Len(gg) : gg[n].k = "reduce" => (gg[n].v = 1 \/ (ReduceFixed /\ gg[n].v \in {2, 3, 4}))
 Saved == phase \in {"load", "judge", "done"}
 
 \* one h5 object per python object; every reference is a link to *the* object of its target
@@ -650,6 +691,9 @@ FileNoAliasing ==
              /\ \A x \in lk : \A y \in lk : (x[1] = y[1] /\ x[2] = y[2]) => x = y
 \* the round trip is exact, except in the documented case (and the known defect) -- and then it is not
 RoundTrip == phase = "done" => (ok <=> (~tback /\ DefectFree(g)))
+\* the plain theorem: what must fail under the old save_reduce (witness run) and what holds for graphs
+\* without a state_setter today
+RoundTripPlain == phase = "done" => (ok <=> ~tback)
 \* the loader raises only in those cases
 ErrOnlyTupleCycle == phase \in {"judge", "done"} /\ err => (tback \/ ~DefectFree(g))
 \* sufficient condition on the graph alone: no tuple lies on a cycle
